@@ -407,7 +407,10 @@ pub fn main_check<P: Prop>(tier: Tier) -> i32 {
     {
         let mut exec = Exec::new(&prop);
         // 1. known findings: replay witnesses, enable the regions that still fail
-        for f in load_findings(P::ID) {
+        let mut findings = load_findings(P::ID);
+        // open findings first, so that their regions are enabled when the witnesses of fixed ones are replayed
+        findings.sort_by_key(|f| f.status != "open");
+        for f in findings {
             match run_value(&prop, &mut exec, &f.witness) {
                 Err(e) => {
                     println!("known_findings.json: finding {} of {}: {e}", f.id, P::ID);
@@ -422,6 +425,10 @@ pub fn main_check<P: Prop>(tier: Tier) -> i32 {
                             known_lines.push(line);
                             *total.excluded.entry(f.id.clone()).or_default() += 1;
                             enabled.insert(f.id.clone());
+                        }
+                        (Outcome::Fail { region: Some(r), .. }, _) if enabled.contains(r) => {
+                            // fails, but inside another finding that is open
+                            *total.excluded.entry(r.clone()).or_default() += 1;
                         }
                         (Outcome::Fail { msg, .. }, _) => {
                             // a fixed finding that came back, or a witness failing for another reason
